@@ -180,6 +180,15 @@ def check (c):
     bad = pulseref.compare_with_code (m, ref, tol)
     if bad:
         viol.append (dict (monitor = 'pulse-geometry', key = 'pulse-geometry', msg = '; '.join (bad [:3])))
+    if spec.get ('route') == 'api':
+        # the model handed to the classes of the library has its pulses where the same description on the command line
+        # puts them (a tapered wire's interior pulses are taken from the program: from both routes the same)
+        mc = gen.build (spec)
+        mon ['route-geometry'] = 1
+        pa, pc = [np.asarray (p.point, float) for p in m.pulses], [np.asarray (p.point, float) for p in mc.pulses]
+        dev = max ([np.linalg.norm (a - b) for a, b in zip (pa, pc)] + [0.0])
+        if len (pa) != len (pc) or dev > 2.1 * tol:
+            viol.append (dict (monitor = 'route-geometry', key = 'pulse-geometry', msg = 'pulses of the model built with the classes of the library (%d) and from the command line (%d) differ by up to %.3g tolerances' % (len (pa), len (pc), dev / tol)))
     N   = len (ref)
     seg = [max (np.linalg.norm (r ['point'] - r ['ends'][0]), np.linalg.norm (r ['point'] - r ['ends'][1])) for r in ref]
     rng = np.random.default_rng ([7, N, int (m.f * 1000)])
